@@ -60,6 +60,14 @@ Theorem C03_command_nodes : forall phony nodes extra x,
 Proof. exact command_nodes_consumed. Qed.
 Print Assumptions C03_command_nodes.
 
+(* the plural form cmds=[line; line; ...]: a file named in ANY command line (the first, a middle one, the last) is
+   consumed under the same condition *)
+Theorem C03_command_lines_nodes : forall phony lines extra x,
+  In x (command_lines_extra_deps phony lines extra) <->
+  (exists line c, In line lines /\ In (x, c) line /\ (c = true \/ phony = false)) \/ In x extra.
+Proof. exact command_lines_nodes_consumed. Qed.
+Print Assumptions C03_command_lines_nodes.
+
 (* all / tests / test / install depend on exactly their declared members (as lists, in order), in both backends;
    alias targets likewise *)
 Theorem C03_members : forall sc,
@@ -137,6 +145,12 @@ Proof. split; [repeat constructor; cbn; intuition discriminate|split; reflexivit
 (* a phony command naming a produced file (consumed) and a source file (not consumed) *)
 Example ex_command_nodes : command_extra_deps true [(1, true); (2, false)] [9] = [1; 9] /\
                            command_extra_deps false [(1, true); (2, false)] [9] = [1; 2; 9].
+Proof. split; reflexivity. Qed.
+
+(* three command lines: file 1 (a source) in the first and the last, file 2 (produced) in the middle one only *)
+Example ex_command_lines_nodes :
+  command_lines_extra_deps false [[(1, false)]; [(2, true)]; [(1, false); (3, false)]] [9] = [1; 2; 1; 3; 9] /\
+  command_lines_extra_deps true [[(1, false)]; [(2, true)]; [(1, false); (3, false)]] [9] = [2; 9].
 Proof. split; reflexivity. Qed.
 
 Definition ex_script : script :=
